@@ -134,12 +134,28 @@ pub struct Comp {
     pub dy: i16,
 }
 
+/// Component written exactly as given: any flags (MORE_COMPONENTS is managed by the encoder), any glyph id (composites,
+/// the glyph itself, ids beyond numGlyphs), point-number or offset arguments, optional transform. For seed fonts of
+/// the crash checks; the reference evaluator treats the arguments as offsets and never follows the glyph id.
+#[derive(Clone, Debug, PartialEq, Eq)]
+pub struct RawComp {
+    /// component flags; bit 0 (ARG_1_AND_2_ARE_WORDS) and the transform bits decide the layout
+    pub flags: u16,
+    pub gid: u16,
+    pub arg1: i16,
+    pub arg2: i16,
+    /// F2Dot14 raw values: 1 (0x0008), 2 (0x0040) or 4 (0x0080) entries as the flags say
+    pub transform: Vec<i16>,
+}
+
 #[derive(Clone, Debug, PartialEq, Eq)]
 pub enum Shape {
     Empty,
     /// contours, each a list of points (a contour may have a single point)
     Simple(Vec<Vec<Pt>>),
     Composite(Vec<Comp>),
+    /// composite with a declared bounding box [xMin, yMin, xMax, yMax] whose components are not interpreted
+    RawComposite([i16; 4], Vec<RawComp>),
 }
 
 impl Shape {
@@ -149,6 +165,7 @@ impl Shape {
             Shape::Empty => 0,
             Shape::Simple(c) => c.iter().map(|c| c.len()).sum(),
             Shape::Composite(c) => c.len(),
+            Shape::RawComposite(_, c) => c.len(),
         }
     }
 }
@@ -459,6 +476,7 @@ pub fn default_xmin(font: &VarFont, gid: usize) -> Option<i64> {
         Shape::Empty => None,
         Shape::Simple(c) => c.iter().flatten().map(|p| p.x as i64).min(),
         Shape::Composite(comps) => comps.iter().filter_map(|c| default_xmin(font, c.gid as usize).map(|m| m + c.dx as i64)).min(),
+        Shape::RawComposite(b, _) => Some(b[0] as i64),
     }
 }
 
@@ -491,6 +509,7 @@ pub fn default_bbox(font: &VarFont, gid: usize) -> Option<[i64; 4]> {
             }
             b
         }
+        Shape::RawComposite(b, _) => Some([b[0] as i64, b[1] as i64, b[2] as i64, b[3] as i64]),
     }
 }
 
@@ -538,6 +557,7 @@ impl<'a> Prepared<'a> {
                 Shape::Empty => vec![],
                 Shape::Simple(c) => c.iter().flatten().map(|p| (Rat::int(p.x as i64), Rat::int(p.y as i64))).collect(),
                 Shape::Composite(c) => c.iter().map(|c| (Rat::int(c.dx as i64), Rat::int(c.dy as i64))).collect(),
+                Shape::RawComposite(_, c) => c.iter().map(|c| (Rat::int(c.arg1 as i64), Rat::int(c.arg2 as i64))).collect(),
             };
             // phantom points of the default master: pp1 = (xMin - lsb, 0), pp2 = (pp1.x + advance, 0)
             let xmin = default_xmin(font, gid).unwrap_or(0);
@@ -593,6 +613,7 @@ impl<'a> Prepared<'a> {
                 }
                 m
             }
+            Shape::RawComposite(b, _) => Some(Rat::int(b[0] as i64)),
         }
     }
 }
@@ -1092,7 +1113,7 @@ pub fn encode_glyph(font: &VarFont, gid: usize) -> Vec<u8> {
     let g = &font.glyphs[gid];
     let mut w = W::new();
     match &g.shape {
-        Shape::Empty => {}
+        Shape::Empty | Shape::RawComposite(..) => {}
         Shape::Simple(contours) => {
             let b = default_bbox(font, gid).unwrap_or([0; 4]);
             w.i16(contours.len() as i16).i16(b[0] as i16).i16(b[1] as i16).i16(b[2] as i16).i16(b[3] as i16);
@@ -1135,6 +1156,31 @@ pub fn encode_glyph(font: &VarFont, gid: usize) -> Vec<u8> {
             }
         }
     }
+    if let Shape::RawComposite(b, comps) = &g.shape {
+        w.i16(-1).i16(b[0]).i16(b[1]).i16(b[2]).i16(b[3]);
+        for (k, c) in comps.iter().enumerate() {
+            let flags = (c.flags & !0x0020) | if k + 1 < comps.len() { 0x0020 } else { 0 };
+            w.u16(flags).u16(c.gid);
+            if flags & 0x0001 != 0 {
+                w.i16(c.arg1).i16(c.arg2);
+            } else {
+                w.u8(c.arg1 as u8).u8(c.arg2 as u8);
+            }
+            let k = if flags & 0x0008 != 0 {
+                1
+            } else if flags & 0x0040 != 0 {
+                2
+            } else if flags & 0x0080 != 0 {
+                4
+            } else {
+                0
+            };
+            assert_eq!(c.transform.len(), k, "machinery: transform entries must match the flags");
+            for t in &c.transform {
+                w.i16(*t);
+            }
+        }
+    }
     w.pad_to(4);
     w.done()
 }
@@ -1172,6 +1218,7 @@ fn encode_maxp(font: &VarFont) -> Vec<u8> {
     let mut max_cpts = 0usize;
     let mut max_cctr = 0usize;
     let mut max_comp = 0usize;
+    let mut max_depth = 1usize;
     for g in &font.glyphs {
         match &g.shape {
             Shape::Simple(c) => {
@@ -1191,12 +1238,16 @@ fn encode_maxp(font: &VarFont) -> Vec<u8> {
                 max_cctr = max_cctr.max(k);
                 max_comp = max_comp.max(comps.len());
             }
+            Shape::RawComposite(_, comps) => {
+                max_comp = max_comp.max(comps.len());
+                max_depth = 16;
+            }
             Shape::Empty => {}
         }
     }
     let mut w = W::new();
     w.u32(0x0001_0000).u16(font.glyphs.len() as u16);
-    for v in [max_pts, max_ctr, max_cpts, max_cctr, 1, 0, 0, 0, 0, 0, 0, max_comp, if max_comp > 0 { 1 } else { 0 }] {
+    for v in [max_pts, max_ctr, max_cpts, max_cctr, 1, 0, 0, 0, 0, 0, 0, max_comp, if max_comp > 0 { max_depth } else { 0 }] {
         w.u16(v as u16);
     }
     w.done()
